@@ -47,6 +47,13 @@ def poly_d(pts, close=True):
 
 def rshape_d(rng):
     k = rng.random()
+    if k < 0.06:
+        # a second subpath that starts right after the closepath, without a moveto of its own: it starts at the subpath
+        # start the Z returned to, and its first edge may run back to the point before the Z
+        x, y, a = round(rng.uniform(2, 8), 1), round(rng.uniform(2, 8), 1), round(rng.uniform(2, 5), 1)
+        return rng.choice(["M%s,%s h%s v%s z l%s,%s h%s v-%s z" % (x, y, a, a, a, a, a, a),
+                           "M%s,%s l%s,0 l0,%s z l0,%s l%s,0 z" % (x, y, a, a, a, a),
+                           "M%s,%s h%s v%s h-%s Z L%s,%s L%s,%s Z" % (x, y, a, a, a, x + a, y + a, x + 2 * a, y)])
     if k < 0.25:
         return poly_d(rpoly(rng))
     if k < 0.4:
